@@ -204,7 +204,17 @@ func (hm *HostsMap) rebuildMatchFiles() (matchFiles []*MatchFile) {
 	// Iterates over all the raw map entries, looking for extra map files
 	// that should be created. overlaps() defines if two entries
 	// should be placed on distinct maps due to overlap or extra filters.
-	for _, entryList := range hm.rawhosts {
+	// iterate over the hostnames in a stable order: the priority match files are
+	// shared by all the hostnames, so the position of the files a hostname uses,
+	// hence the winner of a tie between distinct match types of the same path,
+	// would otherwise depend on the iteration order of the map.
+	hostnames := make([]string, 0, len(hm.rawhosts))
+	for hostname := range hm.rawhosts {
+		hostnames = append(hostnames, hostname)
+	}
+	sort.Strings(hostnames)
+	for _, hostname := range hostnames {
+		entryList := hm.rawhosts[hostname]
 		// priorities should be processed first:
 		// - /sub/dir need to be processed before /sub
 		// - with-filters need to be processed before without-filters
